@@ -91,6 +91,8 @@ def display_value(m, v, kind, fmt):
     if isinstance(dv, float):
         fmt.buf.append(rust_f64_display(dv, kind == "debug")); return
     if is_sym(dv):
+        if getattr(m, "opaque_symbolic_fmt", False):
+            fmt.buf.append("\u27e8sym\u27e9"); return          # the driver declared the text itself irrelevant (only Ok / Err is observed)
         raise Unsupported("formatting a symbolic scalar")
     if isinstance(dv, Agg):
         trait = "Debug" if kind == "debug" else "Display"
